@@ -1,2 +1,153 @@
-(** C12 - theorems under construction. *)
-From Coq Require Import ZArith.
+(** C12 - big-integer arithmetic is exact and reports overflow instead of wrapping.
+    Statements only (closed by [exact]); proofs in proofs/BigintFacts1.v (add / multiply / compare /
+    normalise / powers) and proofs/BigintFacts2.v (shifts, bit length, top 64 bits + sticky flag,
+    from_u64), over the list-of-limbs model of model/Bigint.v with [lval l] = sum l_i * 2^(64 i)
+    (proofs/LimbVal.v).  All theorems hold for an arbitrary build mode (release / checked) and both
+    back-ends unless they say "stack"; "None <-> does not fit" theorems are for the fixed-capacity
+    back-end, where failure must be reported exactly when B64^capacity <= exact result. *)
+
+From Coq Require Import ZArith List Bool.
+From ML Require Import base.RustSem model.Fmt model.Vec model.Bigint gen.Consts gen.Tables gen.PowDump proofs.LimbVal proofs.BigintFacts2.
+Import ListNotations.
+
+Open Scope Z_scope.
+
+Theorem C12_shl_bits_spec :
+  forall (c : config) (L : limits) (b : build) (v : vec) (n : Z) (v' : vec),
+         LIMB_BITS L = 64 ->
+         0 < n < 64 ->
+         limbs_ok (vl v) ->
+         shl_bits c L b v n = Ok (Some v') ->
+         lval (vl v') = lval (vl v) * 2 ^ n /\
+         limbs_ok (vl v') /\
+         zlen (vl v') = zlen (vl v) + (if shl_carry (vl v) n =? 0 then 0 else 1) /\
+         (alloc c = false -> vcap v' = vcap v) /\
+         (alloc c = true ->
+          vcap v' =
+          (if negb (shl_carry (vl v) n =? 0) && (zlen (vl v) =? vcap v)
+           then grow (vcap v) (zlen (vl v) + 1)
+           else vcap v)) /\ (is_normalized (vl v) = true -> is_normalized (vl v') = true).
+Proof. exact shl_bits_spec. Qed.
+
+Theorem C12_shl_bits_no_panic :
+  forall (c : config) (L : limits) (b : build) (v : vec) (n : Z),
+         LIMB_BITS L = 64 -> 0 < n < 64 -> limbs_ok (vl v) -> exists o : option vec, shl_bits c L b v n = Ok o.
+Proof. exact shl_bits_no_panic. Qed.
+
+Theorem C12_shl_bits_stack_none :
+  forall (c : config) (L : limits) (b : build) (v : vec) (n : Z),
+         LIMB_BITS L = 64 ->
+         0 < n < 64 ->
+         limbs_ok (vl v) ->
+         alloc c = false ->
+         zlen (vl v) <= vcap v -> shl_bits c L b v n = Ok None <-> B64 ^ vcap v <= lval (vl v) * 2 ^ n.
+Proof. exact shl_bits_stack_none. Qed.
+
+Theorem C12_shl_limbs_spec :
+  forall (b : build) (v : vec) (n : Z) (v' : vec),
+         0 < n ->
+         n + zlen (vl v) < 2 ^ 64 ->
+         limbs_ok (vl v) ->
+         shl_limbs b v n = Ok (Some v') ->
+         lval (vl v') = lval (vl v) * B64 ^ n /\
+         limbs_ok (vl v') /\
+         vl v' = (if zlen (vl v) =? 0 then [] else repeat 0 (Z.to_nat n) ++ vl v) /\
+         zlen (vl v') = (if zlen (vl v) =? 0 then 0 else n + zlen (vl v)) /\
+         vcap v' = vcap v /\
+         n + zlen (vl v) <= vcap v /\ (is_normalized (vl v) = true -> is_normalized (vl v') = true).
+Proof. exact shl_limbs_spec. Qed.
+
+Theorem C12_shl_limbs_none :
+  forall (b : build) (v : vec) (n : Z),
+         0 < n -> n + zlen (vl v) < 2 ^ 64 -> shl_limbs b v n = Ok None <-> vcap v < n + zlen (vl v).
+Proof. exact shl_limbs_none. Qed.
+
+Theorem C12_shl_spec :
+  forall (c : config) (L : limits) (b : build) (v : vec) (n : Z) (v' : vec),
+         LIMB_BITS L = 64 ->
+         0 <= n < 2 ^ 64 ->
+         zlen (vl v) < 2 ^ 63 ->
+         limbs_ok (vl v) ->
+         shl c L b v n = Ok (Some v') ->
+         lval (vl v') = lval (vl v) * 2 ^ n /\
+         limbs_ok (vl v') /\
+         (alloc c = false -> vcap v' = vcap v) /\
+         (vl v = [] -> vl v' = []) /\ (is_normalized (vl v) = true -> is_normalized (vl v') = true).
+Proof. exact shl_spec. Qed.
+
+Theorem C12_shl_no_panic :
+  forall (c : config) (L : limits) (b : build) (v : vec) (n : Z),
+         LIMB_BITS L = 64 ->
+         0 <= n < 2 ^ 64 ->
+         zlen (vl v) < 2 ^ 63 -> limbs_ok (vl v) -> exists o : option vec, shl c L b v n = Ok o.
+Proof. exact shl_no_panic. Qed.
+
+Theorem C12_shl_stack_none :
+  forall (c : config) (L : limits) (b : build) (v : vec) (n : Z),
+         LIMB_BITS L = 64 ->
+         0 <= n < 2 ^ 64 ->
+         zlen (vl v) < 2 ^ 63 ->
+         limbs_ok (vl v) ->
+         alloc c = false ->
+         vl v <> [] ->
+         is_normalized (vl v) = true ->
+         zlen (vl v) <= vcap v -> shl c L b v n = Ok None <-> B64 ^ vcap v <= lval (vl v) * 2 ^ n.
+Proof. exact shl_stack_none. Qed.
+
+Theorem C12_bit_length_spec :
+  forall (L : limits) (b : build) (l : list Z),
+         LIMB_BITS L = 64 ->
+         limbs_ok l ->
+         l <> [] ->
+         is_normalized l = true ->
+         zlen l < 2 ^ 26 ->
+         exists n : Z,
+           bit_length L b l = Ok n /\
+           0 < n /\
+           2 ^ (n - 1) <= lval l < 2 ^ n /\
+           n = Z.log2 (lval l) + 1 /\ n = bitlen (lval l) /\ 64 * (zlen l - 1) < n <= 64 * zlen l.
+Proof. exact bit_length_spec. Qed.
+
+Theorem C12_bit_length_nil :
+  forall (L : limits) (b : build), LIMB_BITS L = 64 -> bit_length L b [] = Ok 0.
+Proof. exact bit_length_nil. Qed.
+
+Theorem C12_hi64_spec :
+  forall (b : build) (l : list Z),
+         limbs_ok l ->
+         l <> [] -> is_normalized l = true -> zlen l < 2 ^ 64 -> hi64 b l = Ok (hi64_val (lval l)).
+Proof. exact hi64_spec. Qed.
+
+Theorem C12_hi64_nil :
+  forall b : build, hi64 b [] = Ok (0, false).
+Proof. exact hi64_nil. Qed.
+
+Theorem C12_hi64_val_bounds :
+  forall m : Z, 0 < m -> 2 ^ 63 <= fst (hi64_val m) < 2 ^ 64.
+Proof. exact hi64_val_bounds. Qed.
+
+Theorem C12_from_u64_spec :
+  forall (c : config) (L : limits) (b : build) (x : Z),
+         0 <= x < 2 ^ 64 ->
+         2 <= BIGINT_LIMBS L ->
+         exists v : vec,
+           from_u64 c L b x = Ok v /\
+           vl v = (if x =? 0 then [] else [x]) /\
+           lval (vl v) = x /\ limbs_ok (vl v) /\ is_normalized (vl v) = true /\ vcap v = BIGINT_LIMBS L.
+Proof. exact from_u64_spec. Qed.
+
+
+Print Assumptions C12_shl_bits_spec.
+Print Assumptions C12_shl_bits_no_panic.
+Print Assumptions C12_shl_bits_stack_none.
+Print Assumptions C12_shl_limbs_spec.
+Print Assumptions C12_shl_limbs_none.
+Print Assumptions C12_shl_spec.
+Print Assumptions C12_shl_no_panic.
+Print Assumptions C12_shl_stack_none.
+Print Assumptions C12_bit_length_spec.
+Print Assumptions C12_bit_length_nil.
+Print Assumptions C12_hi64_spec.
+Print Assumptions C12_hi64_nil.
+Print Assumptions C12_hi64_val_bounds.
+Print Assumptions C12_from_u64_spec.
